@@ -301,6 +301,8 @@ def run_case(case):
         if full or k == case["seed"] % nthr:
             w.consensus(3, thr, "tl.consensus", OPTS[(k + 1) % 5] if full else {}, tl=tl)
     for j, (kind, route) in enumerate((("product", "ta"), ("sum", "tl"), ("sum", "ta"), ("product", "tl"))):
+        if route == "tl" and not w.uw:
+            continue        # TreeList.maximum_*_tree() has no switch for tree weights: not comparable with an unweighted array
         if full or (j < 2) == (case["seed"] % 2 == 0):
             w.cred(3, kind, "%s.maximum_%s_of_split_support_tree" % (route, kind), tl=tl)
     if full or case.get("rebuild_sd"):
